@@ -256,3 +256,25 @@ def run(F, S, R, tier):
         else:
             R.bad("invalidate/commit", "StoreTransaction::commit no longer evicts the deleted blocks after the commit: a reader that refilled the cache between delete_block and commit keeps the block alive", [cm.where()])
     R.guard("invalidate", invalidate)
+
+    # ---------------------------------------------------------------- 6. the set of store caches itself
+    def cache_fields():
+        """Every StoreCache field was reviewed: what it is keyed by, which column it mirrors, why a stale entry cannot change an answer (immutable
+        content under a content hash, evicted on delete). A NEW cache (round-3 seed C19-seed5: chain-root MMR nodes by position, which a reorg
+        rewrites) has none of that: it is reported until it is reviewed and added here together with its read-through / invalidation rows."""
+        adt = F.adt("ckb_store::cache::StoreCache")
+        if not adt:
+            R.bad("fieldcov/store-cache-fields/anchor-lost", "StoreCache not found", [])
+            return
+        have = {f["n"]: str(f["ty"]) for f in adt["variants"][0]["f"]}
+        want = {"headers", "cell_data", "cell_data_hash", "block_proposals", "block_tx_hashes", "block_uncles", "block_extensions"}
+        R.sites += len(have)
+        new = sorted(set(have) - want)
+        neg = sorted(n for n, ty in have.items() if n in ("headers", "block_proposals", "block_tx_hashes", "block_uncles") and re.search(r"LruCache<[^,]+, core::option::Option<", ty))
+        if new:
+            R.bad("fieldcov/store-cache-fields", "StoreCache has new cache(s) %s: nothing is known about how their entries are invalidated (a cached row that can be rewritten or deleted changes answers)" % new, ["store/src/cache.rs"])
+        elif neg:
+            R.bad("fieldcov/store-cache-fields", "StoreCache.%s now caches misses (Option values): a remembered miss must be forgotten when the row is COMMITTED, not when it is written" % neg, ["store/src/cache.rs"])
+        else:
+            R.ok("fieldcov/store-cache-fields", "StoreCache has exactly the %d reviewed caches" % len(want), ["store/src/cache.rs"])
+    R.guard("fieldcov/store-cache-fields", cache_fields)
